@@ -10,14 +10,13 @@ C16 — Serialized state always validates against the generated JSON schema.
 The specification side is `validate` / `wellFormed` of Json/Validator.lean.
 
 The statement at full strength (`C16_full`) is false of the code: `C16_full_refuted`
-(an Integer holding `True` serialises to `true`, which is not a JSON-Schema integer;
-`wellFormed_refuted`: a lower bound `+inf` is still copied into the schema).  Proved: the
-`_partial` theorems with the remaining side conditions `SchemaOK` / `ValueOK` spelled
-out, and `out_of_bounds_rejected` for every finite JSON number with no side condition
-on the declaration.
+(an Integer holding `True` serialises to `true`, which is not a JSON-Schema integer).
+Proved: the `_partial` theorems with the remaining side conditions `SchemaOK` /
+`ValueOK` spelled out, and `out_of_bounds_rejected` for every finite JSON number and
+every declaration whose bounds can be met at all (`Bounds.sane`).
 
 Only property theorems, their hypotheses' definitions and non-vacuity examples live
-here; helper lemmas are in Json/Lemmas.lean (`ClassSpec.exact`, `Bounds.emittedFinite`,
+here; helper lemmas are in Json/Lemmas.lean (`ClassSpec.exact`, `Bounds.sane`,
 `ClassSpec.nonEmpty` are defined there next to the lemmas that use them).
 -/
 import ParamVerif.Json.Lemmas
@@ -25,16 +24,12 @@ import ParamVerif.Json.Lemmas
 namespace ParamVerif.Json
 
 
-/-- Configuration side conditions under which the generated schema is well formed: the bounds
-written into the schema are finite (`-inf` below / `+inf` above are skipped by the code; a lower
-bound `+inf` or `nan`, an upper bound `-inf` or `nan` are not), Selector objects are finite
-numbers/strings/None, class tuples are non-empty; Color, DateRange, CalendarDateRange have no
-JSON-schema support (`{'type': 'color'}` …). -/
+/-- Configuration side conditions under which the generated schema is well formed: Selector
+objects are finite numbers/strings/None, class tuples are non-empty; Color, DateRange,
+CalendarDateRange have no JSON-schema support (`{'type': 'color'}` …).  Numeric bounds need no
+condition: non-finite bounds are not written. -/
 def SchemaOK (p : Param) : Bool :=
   match p.cfg with
-  | .integer b => b.emittedFinite
-  | .number b => b.emittedFinite
-  | .range b => b.emittedFinite
   | .selector objs => PyVal.finiteL objs
   | .listSelector objs => PyVal.finiteL objs
   | .list (some s) _ _ => s.nonEmpty
@@ -49,8 +44,8 @@ theorem baseSchema_well_formed (p : Param) (h : SchemaOK p = true) (s : Json) (h
     wellFormed s = true := by
   obtain ⟨name, cfg, an, dflt, doc, label⟩ := p
   cases cfg <;> simp only [Param.baseSchema, SchemaOK] at hs h
-  case integer b => simp at hs; subst hs; exact wellFormed_numberSchema _ _ (by decide) h
-  case number b => simp at hs; subst hs; exact wellFormed_numberSchema _ _ (by decide) h
+  case integer b => simp at hs; subst hs; exact wellFormed_numberSchema _ _ (by decide)
+  case number b => simp at hs; subst hs; exact wellFormed_numberSchema _ _ (by decide)
   case string => simp at hs; subst hs; decide
   case boolean => simp at hs; subst hs; decide
   case tuple n =>
@@ -72,7 +67,7 @@ theorem baseSchema_well_formed (p : Param) (h : SchemaOK p = true) (s : Json) (h
     · simp at hs
     · simp at hs; subst hs
       simp [wellFormed, wellFormedKws, tupleSchemaFields, jstr, knownType,
-        wellFormed_numberSchema "number" b (by decide) h]
+        wellFormed_numberSchema "number" b (by decide)]
   case date => simp at hs; subst hs; decide
   case calendarDate => simp at hs; subst hs; decide
   case list it lo hi =>
@@ -182,20 +177,17 @@ theorem serialized_validates_partial (p : Param) (v : PyVal) (hsc : inScope16 p.
     rename_i n
     simp [serializeValue, PCfg.serialize, dumps] at hj; subst hj
     simp [Param.baseSchema] at hs0; subst hs0
-    rw [validate_numberSchema _ _ _ (Fl.ofInt n) rfl rfl]
-    simp [hasType, hv]
+    exact validate_numberSchema_of_contains _ _ _ (Fl.ofInt n) rfl (by simp [hasType]) hv
   | number b =>
     cases v <;> simp [Param.validB, PCfg.accepts] at hv <;> simp at hok
     · rename_i n
       simp [serializeValue, PCfg.serialize, dumps] at hj; subst hj
       simp [Param.baseSchema] at hs0; subst hs0
-      rw [validate_numberSchema _ _ _ (Fl.ofInt n) rfl rfl]
-      simp [hasType, hv]
+      exact validate_numberSchema_of_contains _ _ _ (Fl.ofInt n) rfl (by simp [hasType]) hv
     · rename_i x
       simp [serializeValue, PCfg.serialize, dumps] at hj; subst hj
       simp [Param.baseSchema] at hs0; subst hs0
-      rw [validate_numberSchema _ _ _ x rfl (by simpa [PyVal.finite] using hf)]
-      simp [hasType, hv]
+      exact validate_numberSchema_of_contains _ _ _ x rfl (by simp [hasType]) hv
   | string =>
     cases v <;> simp [Param.validB, PCfg.accepts] at hv <;> simp at hok
     simp [serializeValue, PCfg.serialize, dumps] at hj; subst hj
@@ -409,13 +401,16 @@ theorem state_validates_partial (st : List (Param × PyVal))
   rw [heq]
   exact serialized_validates_partial pv.1 pv.2 h1 h2 h3 h4 s0 j hs0 hj
 
-/-! ## Out-of-bounds numbers are rejected (no side condition on the declaration) -/
+/-! ## Out-of-bounds numbers are rejected -/
 
-/-- **C16, converse direction.**  For every Integer / Number declaration — any bounds, finite or
-not, any inclusivity, nullable or not — a (finite, i.e. JSON) number outside the declared hard
-bounds does not validate against the parameter's schema. -/
+/-- **C16, converse direction.**  For every Integer / Number declaration — any inclusivity, nullable
+or not, bounds finite or the neutral infinities (`Bounds.sane`: a lower bound `+inf`/`nan` or an
+upper bound `-inf`/`nan` admits no number, has no JSON-Schema operand and is not written) — a
+(finite, i.e. JSON) number outside the declared hard bounds does not validate against the
+parameter's schema. -/
 theorem out_of_bounds_rejected (p : Param) (b : Bounds) (hc : p.cfg = .integer b ∨ p.cfg = .number b)
-    (x : Json) (f : Fl) (hx : x.num? = some f) (hfin : f.isFinite = true) (hout : b.contains f = false)
+    (x : Json) (f : Fl) (hx : x.num? = some f) (hfin : f.isFinite = true) (hsane : b.sane = true)
+    (hout : b.contains f = false)
     (s : Json) (hs : p.schema = .ok s) : validate s x = false := by
   have hnull : hasType "null" x = false := by
     cases x <;> simp [Json.num?] at hx <;> simp [hasType]
@@ -426,7 +421,7 @@ theorem out_of_bounds_rejected (p : Param) (b : Bounds) (hc : p.cfg = .integer b
     simp only [Except.ok.injEq] at hs; subst hs
     have h0 : validate s0 x = false := by
       rcases hc with hc | hc <;> simp only [Param.baseSchema, hc, Except.ok.injEq] at hs0 <;> subst hs0 <;>
-        rw [validate_numberSchema _ _ _ f hx hfin] <;> simp [hout]
+        rw [validate_numberSchema _ _ _ f hx hfin hsane] <;> simp [hout]
     cases p.schemaNullable <;> simp [validate_nullable, h0, hnull]
 
 /-! ## The full statement and its refutation -/
@@ -454,13 +449,10 @@ def witnessBound : Param :=
   { name := "n", cfg := .number ⟨some (some (.float .posInf), none), true, true⟩, allowNone := .undef,
     default := some .none, doc := none, label := "N" }
 
-/-- the well-formedness half is false as well: `Number(None, bounds=(inf, None))` still gives
-`{"type": "number", "minimum": Infinity}` (only `-inf` below / `+inf` above are skipped) -/
-theorem wellFormed_refuted :
-    ∃ (p : Param) (s : Json), inScope16 p.cfg = true ∧ p.schemaEntry = .ok s ∧ wellFormed s = false :=
-  ⟨witnessBound,
-   .obj [("anyOf", .arr [.obj [("type", jstr "number"), ("minimum", .float .posInf)], typeObj "null"]),
-         ("title", jstr "N")], by decide, rfl, by decide⟩
+/-- fixed in the code: a non-finite bound on either side is no longer written —
+`Number(None, bounds=(inf, None))` gives `{"anyOf": [{"type": "number"}, {"type": "null"}]}` -/
+example : witnessBound.schemaEntry =
+    .ok (.obj [("anyOf", .arr [.obj [("type", jstr "number")], typeObj "null"]), ("title", jstr "N")]) := rfl
 
 /-- fixed in the code, kept as regression examples: `Selector(objects=[])` and a `-inf` lower bound
 now give well-formed schemas, and the `None` default of a ListSelector validates -/
